@@ -18,23 +18,24 @@ type planOp struct {
 }
 
 type plan struct {
-	Part     string   `json:"part"`                                   // conn | http | ws | wscli | httpcli
-	Dialed   bool     `json:"dialed_with_DialAsyncTimeout,omitempty"` // conn: the nbio side is the dialing side
-	ID       int      `json:"id"`
-	Seed     int64    `json:"seed"`
-	Template string   `json:"template,omitempty"`
-	NoRead   bool     `json:"peer_not_reading,omitempty"`
-	KA2      int      `json:"keepalive_halfslots,omitempty"`    // http keep-alive, in half slots
-	WT2      int      `json:"writetimeout_halfslots,omitempty"` // http write timeout, in half slots (0 = none)
-	WSKA2    int      `json:"ws_keepalive_halfslots,omitempty"` // websocket keep-alive, in half slots (0 = disabled)
-	DT2      int      `json:"dialtimeout_halfslots,omitempty"`  // wscli: Dialer.DialTimeout (0 = none)
-	T2       int      `json:"timeout_halfslots,omitempty"`      // httpcli: ClientConn.Timeout (0 = none)
-	I2       int      `json:"idletimeout_halfslots,omitempty"`  // httpcli: ClientConn.IdleConnTimeout (0 = none)
-	Ops      []planOp `json:"ops"`
+	Part      string   `json:"part"`                     // conn | http | ws | wscli | httpcli
+	Transport string   `json:"transport,omitempty"`      // conn: see transport.go
+	Pre       bool     `json:"traffic_before,omitempty"` // conn: datagrams / bytes exchanged (and drained to EAGAIN) before the first operation
+	ID        int      `json:"id"`
+	Seed      int64    `json:"seed"`
+	Template  string   `json:"template,omitempty"`
+	NoRead    bool     `json:"peer_not_reading,omitempty"`
+	KA2       int      `json:"keepalive_halfslots,omitempty"`    // http keep-alive, in half slots
+	WT2       int      `json:"writetimeout_halfslots,omitempty"` // http write timeout, in half slots (0 = none)
+	WSKA2     int      `json:"ws_keepalive_halfslots,omitempty"` // websocket keep-alive, in half slots (0 = disabled)
+	DT2       int      `json:"dialtimeout_halfslots,omitempty"`  // wscli: Dialer.DialTimeout (0 = none)
+	T2        int      `json:"timeout_halfslots,omitempty"`      // httpcli: ClientConn.Timeout (0 = none)
+	I2        int      `json:"idletimeout_halfslots,omitempty"`  // httpcli: ClientConn.IdleConnTimeout (0 = none)
+	Ops       []planOp `json:"ops"`
 }
 
 func (p *plan) key() string {
-	s := fmt.Sprintf("%s/%v/%v/%d/%d/%d/%d/%d/%d", p.Part, p.NoRead, p.Dialed, p.KA2, p.WT2, p.WSKA2, p.DT2, p.T2, p.I2)
+	s := fmt.Sprintf("%s/%v/%v/%d/%d/%d/%d/%d/%d", p.Part, p.NoRead, p.Transport+fmt.Sprint(p.Pre), p.KA2, p.WT2, p.WSKA2, p.DT2, p.T2, p.I2)
 	for _, o := range p.Ops {
 		s += fmt.Sprintf(";%d%s%d", o.Slot, o.Op, o.Dl)
 	}
@@ -170,7 +171,13 @@ func plannedClose2(ops []planOp, noRead bool) int {
 }
 
 func genConn(rnd *rand.Rand, id int, seed int64) *plan {
-	p := &plan{Part: "conn", ID: id, Seed: seed, Dialed: id%3 == 1}
+	// the transport rotates with the run's seed, so that every named scenario meets every transport over the seeds
+	k := id + int(seed/1000003)
+	p := &plan{Part: "conn", ID: id, Seed: seed, Transport: transports[k%len(transports)], Pre: (k/len(transports))%2 == 1}
+	if p.Transport == "udp-session" {
+		p.Pre = true // a session exists only because a datagram arrived
+	}
+	defer p.fitTransport()
 	if id < len(connTemplates) {
 		t := connTemplates[id]
 		p.Template, p.NoRead, p.Ops = t.name, t.noRead, append([]planOp{}, t.ops...)
@@ -349,4 +356,23 @@ func genHTTPCli(rnd *rand.Rand, id int, seed int64, t2, i2 int) *plan {
 		p.Ops = append(p.Ops, planOp{Slot: last + gap, Op: "hang"})
 	}
 	return p
+}
+
+// UDP has no write backlog and no Writev of several buffers: big writes and Writev become small writes, drains vanish
+func (p *plan) fitTransport() {
+	if !isUDP(p.Transport) {
+		return
+	}
+	p.NoRead = false
+	var ops []planOp
+	for _, o := range p.Ops {
+		switch o.Op {
+		case "wbig", "wvsmall":
+			o.Op = "wsmall"
+		case "drain":
+			continue
+		}
+		ops = append(ops, o)
+	}
+	p.Ops = ops
 }
